@@ -107,8 +107,8 @@ func checkC06(c *Ctx) {
 					r.Bad("C06.D2", ord.next(FuncKey(fn)+"#go"), p.Pos(ins.Pos()), "goroutine: results may be produced in scheduling order")
 				case ssa.CallInstruction:
 					name := funcFullName(ssaCalleeObj(x))
-					switch {
-					case name == "time.Now" || name == "time.Since" || name == "time.Until":
+					switch kind := nondetSource(name); {
+					case kind == "clock":
 						sources++
 						k := ord.next(FuncKey(fn) + "#" + name)
 						if rel == "pkg/events" || (rel == "pkg/config" && fn.Signature.Recv() != nil) {
@@ -116,16 +116,16 @@ func checkC06(c *Ctx) {
 						} else {
 							r.Bad("C06.D2", k, p.Pos(ins.Pos()), "the wall clock is read in "+FuncKey(fn)+", outside the event constructor and the configured clock: its value can reach the output")
 						}
-					case name == "context.WithTimeout" || name == "context.WithDeadline" || name == "context.WithTimeoutCause" || name == "context.WithDeadlineCause" || name == "time.After" || name == "time.AfterFunc" || name == "time.NewTimer" || name == "time.Tick" || name == "time.NewTicker":
+					case kind == "timer":
 						sources++
 						r.Bad("C06.D2", ord.next(FuncKey(fn)+"#"+name), p.Pos(ins.Pos()), name+": a deadline or timer in reach of the entry points makes the outcome depend on how long the work takes on this machine under this load (a report in one run, a cancellation error in another)")
-					case strings.HasPrefix(name, "math/rand.") || strings.HasPrefix(name, "(*math/rand.") || strings.HasPrefix(name, "crypto/rand.") || strings.HasPrefix(name, "math/rand/v2."):
+					case kind == "random":
 						sources++
 						r.Bad("C06.D2", ord.next(FuncKey(fn)+"#"+name), p.Pos(ins.Pos()), "random numbers in reach of the entry points")
-					case name == "os.Getenv" || name == "os.Environ" || name == "os.LookupEnv" || name == "os.Getpid" || name == "os.Hostname":
+					case kind == "env":
 						sources++
 						r.Bad("C06.D2", ord.next(FuncKey(fn)+"#"+name), p.Pos(ins.Pos()), "process environment in reach of the entry points")
-					case name == "(reflect.Value).MapKeys" || name == "(reflect.Value).MapRange":
+					case kind == "reflect-range":
 						sources++
 						if !isGeneratedParserFunc(p, fn) {
 							r.Bad("C06.D2", ord.next(FuncKey(fn)+"#"+name), p.Pos(ins.Pos()), "reflective map iteration (random order)")
@@ -149,6 +149,11 @@ func checkC06(c *Ctx) {
 		}
 	}
 	r.Analysed["nondeterminism_sources_found"] = sources
+	// the classifier must find one of each kind in the positive examples
+	canaryCheck(c, "C06.D2", []string{"select", "go", "clock", "timer", "random", "env", "reflect-range"}, func(ins ssa.Instruction) string {
+		k, _ := nondetKind(ins)
+		return k
+	})
 	r.OK("C06.D2", "census", "", fmt.Sprintf("%d functions scanned; %d potential sources classified above", len(funcs), sources))
 
 	// ---- D3
